@@ -1,6 +1,6 @@
 PLAN['C15'] = dict(
     level='exploration',
-    units=std_units('C15', [('asan', 'sdcz', 3000, 150000), ('asan-vb', 'sdcz', 900, 40000), ('asan-i64', 'sdcz', 900, 30000)], chunk=100),
+    units=std_units('C15', [('asan', 'sdcz', 12000, 150000), ('asan-vb', 'sdcz', 3600, 40000), ('asan-i64', 'sdcz', 3600, 30000)], chunk=100),
     rule='structurally nonsingular generated matrices (zero diagonals by row relabelling, exactly zero columns / leading entries, duplicated leading columns) x ILU option lattice (drop rules incl. secondary rules with and without interpolation, tolerances 0..1, fill factors, norms, MILU variants, MC64 on/off, Trans, orderings, thresholds, Equil) x NC/NR x tunings x malloc/workspace; '
          'info against the count of pivot-replacement events from the guarded hooks, structure, bijections, U diagonal, restored index arrays, X against the solve defined by the returned factors (residual w.r.t. Pr^T L U Pc^T), exactness when dropping is off and nothing was replaced',
     counter_names=['gsisx calls', 'pivot replacement events', 'max preconditioner-solve residual/bound per-mille', 'solutions judged', 'no-drop exactness verdicts'],
